@@ -159,7 +159,7 @@ def effects_guarded(P, R, cl):
         for s in f.sites():
             for ex in rules.event_exprs(s.ev):
                 for x in walk(ex):
-                    if x.get('k') == 'var' and x.get('sc') in ('local', 'param') and x.get('t', '').startswith('struct ') and x['t'].endswith('*'):
+                    if x.get('k') == 'var' and x.get('sc') in ('local', 'param') and x.get('t', '').replace('const ', '').startswith('struct ') and x['t'].endswith('*'):
                         ptrs.add(x['name'])
 
         def awaited(r):
@@ -203,7 +203,7 @@ def effects_guarded(P, R, cl):
             ev = s.ev
             if ev['k'] == 'store' and is_var(ev.get('lhs'), idxv):
                 return (False, False, None)
-            if ev['k'] == 'store' and is_var(ev.get('lhs')) and ev['lhs']['name'] in ptrs and not slotvar(s) and ev['lhs'].get('t', '').startswith('struct iauth_xquery_service'):
+            if ev['k'] == 'store' and is_var(ev.get('lhs')) and ev['lhs']['name'] in ptrs and not slotvar(s) and ev['lhs'].get('t', '').replace('const ', '').startswith('struct iauth_xquery_service'):
                 return (a, False, lim)
             return st
         before, _, sin, bout = f.forward((False, False, None), on_event, on_edge)
@@ -265,7 +265,7 @@ def lookup_skips(P, R, cl, rule='C04.GRD.3'):
                 l, op, rr = r
                 if isinstance(l, dict) and l.get('k') == 'bin' and l['op'] == '&' and is_field(l['l'], holds.MASK) and op == '==' and const_of(rr) == 0:
                     why = 'the service is not awaited'
-                elif is_var(l) and l.get('t', '').startswith('struct iauth_xquery_service') and op == '==' and const_of(rr) == 0:
+                elif is_var(l) and l.get('t', '').replace('const ', '').startswith('struct iauth_xquery_service') and op == '==' and const_of(rr) == 0:
                     why = 'the slot is empty'
                 elif isinstance(l, dict) and l.get('k') == 'callref' and l.get('callee') in ('strcmp', 'strcasecmp') and op == '!=' and const_of(rr) == 0:
                     why = 'the name differs'
